@@ -474,6 +474,7 @@ MUTANTS += [
     M("torch rejection sampling from the global generator", _S, "log_u = asarray(\n            np.log(rng.uniform(size=len(self.x))), self.xp, device=self.device\n        )", "log_u = self.xp.log(self.xp.rand(len(self.x)))", ("C20.fresh", "C20.used")),
 ]
 NEUTRALS = [
+    __import__("aspire_sa.rules.smcloop", fromlist=["HELPER_NEUTRAL"]).HELPER_NEUTRAL,
     M("torch flow seeded unless seed is None", "src/aspire/flows/torch/flows.py", "torch.manual_seed(seed)", "if seed is not None:\n            torch.manual_seed(seed)"),
     M("fallback written as a conditional expression", _B, "self.rng = rng or np.random.default_rng()\n        self._adapative_target_efficiency = False", "self.rng = rng if rng is not None else np.random.default_rng()\n        self._adapative_target_efficiency = False"),
     M("fallback written as an if", _B, "self.rng = rng or np.random.default_rng()\n        self._adapative_target_efficiency = False", "if rng is None:\n            rng = np.random.default_rng()\n        self.rng = rng\n        self._adapative_target_efficiency = False"),
